@@ -15,7 +15,8 @@ import XmppModel.Model.Muc
       I mediated invitation   N unrelated stanza   ?<bits> Joined() of every channel
       =<a0>.<a1>… Me() of every channel (emitted when it changed)
       %c | %s | %a  (first token, optional) stanza namespace of the session: jabber:client (default),
-        jabber:server, jabber:component:accept; a following `n` (%cn …): a Client without callbacks
+        jabber:server, jabber:component:accept; following flags: `n` (%cn …) a Client without callbacks,
+        `l` callbacks assigned after registration with the multiplexer, `m` one Client serving two sessions
       Ej<c>:<shape> / El<c>:<shape>  the error reply with the given children (harness/c18/reply.go):
         x echoed muc x, w white space, p echoed <priority/>, s echoed <status/>, then the error element
         (e b n a m t g: forms of the error; its namespace is the session's)
@@ -59,25 +60,37 @@ def payloadOk (p : List Char) : Bool :=
     match affOfLetter a, roleOfLetter r with
     | some aff, some role =>
       let flags := rest.dropWhile fun c => c.isDigit || c = '+'
-      flags.all (fun c => c = 'r' || c = 'x' || c = 'd' || c = 'e' || c = 's') &&
+      flags.all (fun c => c = 'r' || c = 'x' || c = 'd' || c = 'e' || c = 's' || c = 't') &&
         (flags.contains 'x' || (decodeItem ⟨aff, role⟩).isSome)
     | _, _ => false
   | _ => false
 
-/-- `<a>` or `<a>:<payload>` -/
-def presAddr (r : List Char) : Option Nat :=
+/-- `<a>` or `<a>:<payload>`: the address, and how often the handler runs for the presence — the
+multiplexer calls it once per muc#user child (flag `t`: the payload stands twice) -/
+def presAddr (r : List Char) : Option (Nat × Nat) :=
   match (String.ofList r).splitOn ":" with
-  | [as] => as.toNat?
-  | [as, p] => if payloadOk p.toList then as.toNat? else none
+  | [as] => as.toNat?.map fun a => (a, 1)
+  | [as, p] => if payloadOk p.toList then as.toNat?.map fun a => (a, if p.toList.contains 't' then 2 else 1) else none
   | _ => none
+
+def stepN (s : St) (a : Act) : Nat → Option St
+  | 0 => some s
+  | n + 1 => (step s a).bind fun s' => stepN s' a n
 
 /-- configuration token: stanza namespace of the session, and whether the application has set the
 callbacks (`n`: it has not — the bookkeeping is the same, nothing is called) -/
 def cfgNs (tok : String) : Option (String × Bool) :=
-  if tok = "%c" then some (nsClient, true) else if tok = "%s" then some (nsServer, true)
-  else if tok = "%a" then some (nsAccept, true)
-  else if tok = "%cn" then some (nsClient, false) else if tok = "%sn" then some (nsServer, false)
-  else if tok = "%an" then some (nsAccept, false) else none
+  -- %<ns><flags>: n no callbacks; l callbacks assigned after the Client was registered with the
+  -- multiplexer; m the Client serves two live sessions (channel c on session c%2).  Neither l nor m
+  -- changes anything of the bookkeeping or of the callbacks: the registration table is keyed by the
+  -- occupant address alone and the callback fields are read when a stanza is handled
+  match tok.toList with
+  | '%' :: k :: flags =>
+    let ns := if k = 'c' then some nsClient else if k = 's' then some nsServer else if k = 'a' then some nsAccept else none
+    if flags.all (fun c => c = 'n' || c = 'l' || c = 'm') && flags.length ≤ 3 then
+      ns.map fun n => (n, !flags.contains 'n')
+    else none
+  | _ => none
 
 /-- children of an error reply of the given shape on a stream whose stanza namespace is `ns` -/
 def shapeChild (ns : String) (c : Char) : Option RChild :=
@@ -129,8 +142,8 @@ def applyTok (ns : String) (n : Nat) (s : St) (tok : String) : Option St :=
     | [cs, as] => do let c ← idx cs.toList; let a ← as.toNat?; step s (.joinAbort c a)
     | _ => none
   | 's' :: r => do let _ ← idx r; some s   -- entering the select is not a model step
-  | 'A' :: r => do let a ← presAddr r; step s (.avail a)
-  | 'U' :: r => do let a ← presAddr r; step s (.unavail a)
+  | 'A' :: r => do let (a, k) ← presAddr r; stepN s (.avail a) k
+  | 'U' :: r => do let (a, k) ← presAddr r; stepN s (.unavail a) k
   | 'E' :: 'j' :: r => do
     let (cs, k) ← replyChan ns r
     let c ← idx cs
@@ -240,6 +253,9 @@ def handle (args : List String) : Option String :=
     match replay ns l.length toks 0 ⟨init addr, fun _ => none⟩ with
     | .ok s => pure s!"joined={bits l.length s} upres={if cb then s.upres else 0} inv={if cb then s.invites else 0}"
     | .error e => pure e
+  -- the forced hand-off schedule (harness/c18/handoff.go) is judged by the oracle alone: the model's
+  -- presence step is atomic, which is what the scenario checks of the code
+  | ["handoff", _] => some "ok"
   | _ => none
 
 end XmppModel.Driver.C18
